@@ -108,12 +108,13 @@ Free(pid, b, dv) ==
   /\ devUsed' = devUsed \cup dv
   /\ UNCHANGED <<devs, limbo, nextV, vown, held, crashed>>
 
-(* The as-implemented Free looks the pointer up without the pid; when the entry it finds belongs to another
-   process whose page is already unmapped, vm.PageTable.Remove panics. *)
+(* The as-implemented Free looks the pointer up without the pid.  When the entry it finds names a page that
+   is no longer mapped (it belongs to another process that already freed it, or it is the caller's own page
+   that another process's Free unmapped), vm.PageTable.Remove panics. *)
 FreeCrash(pid, b) ==
   LET dv == {"MirrorKeyedByVAddrOnly"} IN
   /\ ~crashed /\ b \in LiveBufs /\ bufs[b].pid = pid
-  /\ dv \subseteq Deviations /\ VOwn(bufs[b].v) # pid
+  /\ dv \subseteq Deviations
   /\ <<VOwn(bufs[b].v), bufs[b].v>> \notin DOMAIN pt
   /\ crashed' = TRUE /\ devUsed' = devUsed \cup dv
   /\ UNCHANGED <<devs, out, limbo, nextV, vown, pt, bufs, held>>
